@@ -22,6 +22,7 @@ pub struct Plan {
 pub fn scenario_fn(name: &str) -> Option<ScenarioFn> {
     Some(match name {
         "agent" => crate::sc_agent::scenario,
+        "wire" => crate::sc_wire::scenario,
         _ => return None,
     })
 }
